@@ -8,7 +8,7 @@ from collections import Counter
 
 PKG = "auth/api/iam"
 # the second file is an add-only exported helper overlaid into package storage (clock control for the in-memory store)
-HARNESS = ["auth/api/iam/zz_verif_c02_test.go", "storage/zz_verif_c02_export.go"]
+HARNESS = ["auth/api/iam/zz_verif_c02_test.go", "auth/api/iam/zz_verif_c02jar_test.go", "storage/zz_verif_c02_export.go"]
 
 REQUIRED = [
     "s2s_token_only_if", "s2s_defect_combination_rejected", "claims_cannot_override", "claims_cannot_override_today",
@@ -298,33 +298,131 @@ class Oracle:
                 self.bad("introspection-standard-field-differs-from-issuance:" + k,
                          f"ops {j},{i}: member {k!r} is {got.get(k)!r}, established at issuance: {want!r}", [j, i])
 
+    def judge_authreq(self, i, op, line):
+        if line.startswith("302 "):
+            f = dict(x.split("=", 1) for x in line.split()[1:])
+            why = []
+            if op.get("aud") != self.cfg["publicURL"] + "/oauth2/" + op.get("subject", ""):
+                why.append("request-addressed-to-another-server")
+            if not op.get("challenge") or op.get("method") != "S256":
+                why.append("no-S256-pkce-challenge")
+            if self.policy(op.get("scope")) is None:
+                why.append("scope-not-configured")
+            if not op.get("redirect_uri"):
+                why.append("missing-redirect_uri")
+            for wname in why:
+                self.bad("authorization-request-accepted-despite:" + wname, f"op {i}: {line[:60]} ({op.get('defects')})", [i])
+            spec = {"client_id": op.get("client_id"), "scope": op.get("scope"), "own_subject": op.get("subject"),
+                    "challenge": op.get("challenge"), "method": op.get("method"), "client_state": op.get("client_state"),
+                    "required": self.policy(op.get("scope")) or []}
+            self.sessions[f["state"]] = {"spec": spec, "t": op["t"], "fulfilled": [], "nonces": {f["nonce"]: op["t"]}, "i": i}
+
+    # spec values of RFC 6749 / Nuts RFC021 (a changed constant must show up as a violation)
+    GRANT = {"s2s": "vp_token-bearer", "code": "authorization_code"}
+
+    def judge_grant(self, i, op, line):
+        g = op.get("grant_type")
+        if g is not None and line.startswith("200 ") and g != self.GRANT[op["op"]]:
+            self.bad("token-issued-for-another-grant_type", f"op {i}: a {op['op']} request sent with grant_type {g!r} was answered {line[:50]}", [i])
+
+    def judge_authz(self, i, op, line):
+        """a request at the authorization endpoint: 302 only for a request object that is (1) the only one given, (2) retrievable by the
+        announced method, (3) signed - untampered, inside its validity - by the key the client's DID document AND the client's OpenID
+        configuration list under the kid, (4) naming the client_id of the query; the session is then built from the SIGNED parameters only"""
+        m = re.match(r"calls=\[(.*?)\] (.*)$", line)
+        if not m:
+            return
+        calls, res = m.group(1).split(), m.group(2)
+        q = op.get("q") or {}
+        req, uri, meth, qcid = q.get("request", ""), q.get("request_uri", ""), q.get("request_uri_method", ""), q.get("client_id", "")
+        toks = {t["raw"]: t for t in op.get("tokens") or []}
+        # no remote call for an unauthenticated / unusable request: at most one fetch, at the announced URI, and the client configuration
+        # only for the client_id the signed object names
+        for c in calls:
+            if c.startswith(("get(", "post(")) and c[c.index("(") + 1:-1] != uri:
+                self.bad("authorization-endpoint-fetches-foreign-uri", f"op {i}: {c} but request_uri={uri!r}", [i])
+            if c.startswith("post-with-foreign-metadata("):
+                self.bad("request-object-post-with-foreign-metadata", f"op {i}: {c}", [i])
+            if c.startswith("RESOLVED-WITH-RELATION"):
+                self.bad("request-object-key-resolved-for-other-relation", f"op {i}: {c}", [i])
+        if not res.startswith("302 "):
+            return
+        why = []
+        if not op.get("enabled"):
+            why.append("endpoint-disabled")
+        if op.get("subject") not in self.cfg["subjects"]:
+            why.append("unknown-subject")
+        raw = None
+        if req and uri:
+            why.append("request-and-request_uri-both-given")
+        elif req:
+            raw = req
+        elif uri:
+            table = op.get("get") if meth in ("", "get") else op.get("post") if meth == "post" else None
+            if table is None:
+                why.append("unsupported-request_uri_method")
+            for e in table or []:
+                if e["in"] == uri:
+                    raw = e.get("out") if e.get("ok") else None
+                    break
+            if raw is None:
+                why.append("request-object-not-retrievable")
+        else:
+            why.append("no-signed-request-object")
+        tok = toks.get(raw) if raw is not None else None
+        spec = {}
+        if raw is not None and tok is None:
+            why.append("request-object-is-not-a-jwt")
+        if tok is not None:
+            spec = tok.get("claims_spec") or {}
+            resolver = {}
+            for e in reversed(op.get("resolver") or []):
+                resolver[e["kid"]] = e["key"]
+            if tok.get("tamper"):
+                why.append("request-object-" + tok["tamper"])
+            if not tok.get("kid") or resolver.get(tok["kid"]) != tok["signer"]:
+                why.append("request-object-not-signed-by-the-resolved-key")
+            if spec.get("client_id") != qcid or not isinstance(spec.get("client_id"), str):
+                why.append("client_id-differs-from-signed-claim")
+            cfgs = [c for c in op.get("configs") or [] if c["client"] == qcid]
+            if not cfgs or not cfgs[0].get("ok"):
+                why.append("client-configuration-unavailable")
+            else:
+                keys = [k for k in cfgs[0].get("keys") or [] if k["kid"] == tok.get("kid")]
+                if not keys:
+                    why.append("client-does-not-own-signer-key")
+                elif keys[0]["key"] != tok["signer"]:
+                    why.append("signer-key-differs-from-client-configuration")
+            if spec.get("response_type") != "code":
+                why.append("response_type-not-code")
+        for wname in why:
+            self.bad("authorization-request-accepted-despite:" + wname, f"op {i}: {res[:60]} (jar defects {op.get('jar_defects')}, calls {calls})", [i])
+
+        def s(k):
+            v = spec.get(k)
+            if isinstance(v, list) and len(v) == 1 and k == "aud":
+                v = v[0]
+            return v if isinstance(v, str) else ""
+        # the session must be the one the SIGNED parameters describe (unsigned look-alikes in the query are ignored)
+        signed = {"op": "authreq", "t": op["t"], "subject": op.get("subject"), "aud": s("aud"), "client_id": s("client_id"), "scope": s("scope"),
+                  "challenge": s("code_challenge"), "method": s("code_challenge_method"), "client_state": s("state"),
+                  "redirect_uri": s("redirect_uri"), "defects": op.get("jar_defects")}
+        self.judge_authreq(i, signed, res)
+
     def feed(self, i, op, line):
         kind = op.get("op")
         if kind == "cfg":
             self.reset(op)
             self.cfg_i = i
         elif kind == "s2s":
+            self.judge_grant(i, op, line)
             self.judge_s2s(i, op, line)
         elif kind == "introspect":
             self.judge_introspect(i, op, line)
         elif kind == "authreq":
-            if line.startswith("302 "):
-                f = dict(x.split("=", 1) for x in line.split()[1:])
-                why = []
-                if op.get("aud") != self.cfg["publicURL"] + "/oauth2/" + op.get("subject", ""):
-                    why.append("request-addressed-to-another-server")
-                if not op.get("challenge") or op.get("method") != "S256":
-                    why.append("no-S256-pkce-challenge")
-                if self.policy(op.get("scope")) is None:
-                    why.append("scope-not-configured")
-                if not op.get("redirect_uri"):
-                    why.append("missing-redirect_uri")
-                for wname in why:
-                    self.bad("authorization-request-accepted-despite:" + wname, f"op {i}: {line[:60]} ({op.get('defects')})", [i])
-                spec = {"client_id": op.get("client_id"), "scope": op.get("scope"), "own_subject": op.get("subject"),
-                        "challenge": op.get("challenge"), "method": op.get("method"), "client_state": op.get("client_state"),
-                        "required": self.policy(op.get("scope")) or []}
-                self.sessions[f["state"]] = {"spec": spec, "t": op["t"], "fulfilled": [], "nonces": {f["nonce"]: op["t"]}, "i": i}
+            self.judge_authreq(i, op, line)
+        elif kind == "authz":
+            self.judge_authz(i, op, line)
         elif kind == "seed":
             self.sessions[op["state"]] = {"spec": op["session"], "t": op["t"], "fulfilled": [], "nonces": {op["nonce"]: op["t"]}, "i": i}
         elif kind == "authresp":
@@ -341,6 +439,7 @@ class Oracle:
             for o in order:
                 self.judge_authresp(i, op, o)
         elif kind == "code":
+            self.judge_grant(i, op, line)
             self.judge_code(i, op, line)
 
 
@@ -433,7 +532,7 @@ def run(ctx):
         a, b = world_of(idx[0])
         # replay = the world's configuration + every state-changing op up to the last op involved (time advances included)
         keep = [a] + [k for k in range(a + 1, idx[-1] + 1)
-                      if k in idx or ops[k].get("op") in ("advance", "seed", "authresp", "authreq", "race") or (ops[k].get("op") in ("s2s", "code") and impl[k].startswith("200"))]
+                      if k in idx or ops[k].get("op") in ("advance", "seed", "authresp", "authreq", "authz", "race") or (ops[k].get("op") in ("s2s", "code") and impl[k].startswith("200"))]
         replay = "\n".join(clean(ops[k]) for k in keep) + "\n"
         if ctx.violation(sig, text, re.sub(r"[^A-Za-z0-9_.-]+", "_", sig.split(":", 1)[1])[:80] + ".jsonl", replay):
             new_sigs.append(sig)
@@ -484,7 +583,18 @@ def run(ctx):
             defect_sizes[len(ds)] += 1
             for d in ds:
                 defect_kinds[d] += 1
-            distinct.add((o["op"], tuple(ds), cls, len(o.get("vps") or [])))
+            distinct.add((o["op"], tuple(ds), cls, len(o.get("vps") or []), o.get("grant_type")))
+            if o.get("grant_type") is not None:
+                outcomes[o["op"] + "@grant_type=" + o["grant_type"][:24] + ":" + cls] += 1
+        elif o.get("op") == "authz":
+            cls = re.sub(r"^calls=\[[^\]]*\] ", "", l).split(" ")[0]
+            outcomes["authz:" + cls] += 1
+            jd = o.get("jar_defects") or []
+            for d in jd:
+                defect_kinds["jar:" + d] += 1
+            q = o.get("q") or {}
+            delivery = "both" if q.get("request") and q.get("request_uri") else "request" if q.get("request") else ("uri-" + (q.get("request_uri_method") or "default")) if q.get("request_uri") else "none"
+            distinct.add(("authz", tuple(jd), cls, delivery))
         elif o.get("op") == "introspect":
             cls = "active" if "active=true" in l else ("inactive" if l == "ok active=false" else l.split(":")[0] + ":" + l.split(":")[1] if l.startswith("err") else l[:20])
             outcomes["introspect:" + cls] += 1
